@@ -58,6 +58,8 @@ export function encodeMap(rng, M, depth, out) {
   if (depth > 0) {
     choices.push('alias', 'interface', 'paren', 'exportAlias', 'exportInterface', 'indexWrapper');
     if (M.length >= 2) choices.push('intersection', 'mergedInterface', 'extends', 'extendsTwo', 'extendsUtility');
+    if (M.length >= 3) choices.push('mergedWithExtends');
+    if (M.length >= 1) choices.push('emptyExtends');
     if (M.every((m) => m.optional || m.member === 'getter') && M.some((m) => m.member !== 'getter') && !M.some((m) => m.member === 'getter')) choices.push('partial');
     if (M.every((m) => !m.optional)) choices.push('required');
     if (M.length >= 1) choices.push('pick', 'omit');
@@ -87,6 +89,22 @@ export function encodeMap(rng, M, depth, out) {
     case 'mergedInterface': {
       const [a, b] = split(rng, M); const n = fresh('I');
       decl(`interface ${n} { ${a.map(memberSrc).join('; ')} }`); decl(`interface ${n} { ${b.map(memberSrc).join('; ')} }`);
+      return n;
+    }
+    case 'mergedWithExtends': {
+      // interface I extends B { M1 }  interface I { M2 }   (heritage on either declaration)
+      const [ab, c] = split(rng, M); const parts = ab.length >= 2 ? split(rng, ab) : [ab, []];
+      const [a, bb] = parts; const n = fresh('I');
+      const base = encodeInterfaceName(rng, a.length ? a : c.slice(0, 1), depth - 1, out);
+      const rest = a.length ? c : c.slice(1);
+      const d1 = `interface ${n} extends ${base} { ${bb.map(memberSrc).join('; ')} }`, d2 = `interface ${n} { ${rest.map(memberSrc).join('; ')} }`;
+      if (rng.bool()) { decl(d1); decl(d2); } else { decl(d2); decl(d1); }
+      return n;
+    }
+    case 'emptyExtends': {
+      const n = fresh('I');
+      const base = encodeInterfaceName(rng, M, depth - 1, out);
+      decl(`interface ${n} extends ${base} {}`);
       return n;
     }
     case 'extends': {
@@ -155,7 +173,13 @@ function encodeInterfaceName(rng, M, depth, out) {
 
 /** assemble a module: declarations before/after the call, optional local scope with a shadowed outer type */
 export function assembleModule(rng, { decls, call, imports = ['defineComponent'], order, local, extra = '' }) {
-  const imp = `import { ${imports.join(', ')} } from "vue";`;
+  const layout = imports.length > 1 ? rng.pick(['one', 'one', 'split', 'splitType', 'splitTypeFirst', 'inlineType']) : 'one';
+  const others = imports.filter((x) => x !== 'defineComponent');
+  const imp = layout === 'one' ? `import { ${imports.join(', ')} } from "vue";`
+    : layout === 'split' ? `import { defineComponent } from "vue";\nimport { ${others.join(', ')} } from "vue";`
+    : layout === 'splitType' ? `import { defineComponent } from "vue";\nimport type { ${others.join(', ')} } from "vue";`
+    : layout === 'splitTypeFirst' ? `import type { ${others.join(', ')} } from "vue";\nimport { defineComponent } from "vue";`
+    : `import { defineComponent } from "vue";\nimport { ref, ${others.map((x) => 'type ' + x).join(', ')} } from "vue";`;
   const texts = decls.map((d) => d.text);
   if (local) {
     // every declaration lives inside a function; an outer declaration with the same name denotes something else
@@ -196,7 +220,7 @@ export const ATOMS = [
   ['Partial<{ a: 1 }>', ['Object'], ['({})']], ['Required<{ a?: 1 }>', ['Object'], ['({ a: 1 })']], ['Readonly<{ a: 1 }>', ['Object'], ['({ a: 1 })']], ["Pick<{ a: 1; b: 2 }, 'a'>", ['Object'], ['({ a: 1 })']], ["Omit<{ a: 1; b: 2 }, 'a'>", ['Object'], ['({ b: 2 })']],
   ["Uppercase<'a'>", ['String'], ['"A"']], ["Lowercase<'A'>", ['String'], ['"a"']], ["Capitalize<'ab'>", ['String'], ['"Ab"']], ["Uncapitalize<'Ab'>", ['String'], ['"ab"']],
   ['Parameters<(a: string) => void>', ['Array'], ['["a"]']], ['ConstructorParameters<typeof Date>', ['Array'], ['[0]']], ['InstanceType<typeof Date>', ['Object'], ['new Date(0)']],
-  ['NonNullable<string | null>', ['String'], ['"nn"']], ['Exclude<string | number, number>', ['String', 'Number'], ['"ex"']], ['Extract<string | number, number>', ['Number'], ['7']], ['OmitThisParameter<(this: Date) => void>', ['Function'], ['(() => {})']],
+  ['NonNullable<string | null>', ['String'], ['"nn"']], ['Extract<string | Date | string[], object>', ['Object'], ['new Date(0)', '["x"]']], ['Extract<string | string[], object | string>', ['Object', 'String'], ['"es"', '["ea"]']], ['Exclude<string | number, number>', ['String', 'Number'], ['"ex"']], ['Extract<string | number, number>', ['Number'], ['7']], ['OmitThisParameter<(this: Date) => void>', ['Function'], ['(() => {})']],
 ];
 
 /** an atom as a tree node; function/constructor types are parenthesised so they can sit in unions */
@@ -207,7 +231,7 @@ export function atomNode([src, ctors, inh]) {
 export function randomTypeExpr(rng, depth, out) {
   const pickAtom = () => atomNode(rng.pick(ATOMS));
   if (depth === 0) return pickAtom();
-  const op = rng.pick(['atom', 'union', 'union', 'alias', 'paren', 'tupleIndex', 'arrayIndex', 'propIndex', 'nonNullable', 'aliasOfUnion', 'interfaceIndex', 'tupleNumberIndex']);
+  const op = rng.pick(['atom', 'union', 'union', 'alias', 'paren', 'tupleIndex', 'arrayIndex', 'propIndex', 'nonNullable', 'nonNullableNullFirst', 'aliasOfUnion', 'interfaceIndex', 'interfaceMethodIndex', 'typeLitMethodIndex', 'tupleNumberIndex']);
   const decl = (t) => out.decls.push({ text: t });
   const sub = () => randomTypeExpr(rng, depth - 1, out);
   const union = (a, b) => ({ ctors: [...a.ctors, ...b.ctors.filter((c) => !a.ctors.includes(c))], inhabitants: [...a.inhabitants, ...b.inhabitants] });
@@ -222,6 +246,13 @@ export function randomTypeExpr(rng, depth, out) {
     case 'arrayIndex': { const a = sub(); return { ...a, src: `(${a.src})[][number]`, ops: ['arrayIndex', ...a.ops] }; }
     case 'propIndex': { const a = sub(), b = sub(); return { ...a, src: `{ k: ${a.src}; j: ${b.src} }["k"]`, ops: ['propIndex', ...a.ops] }; }
     case 'interfaceIndex': { const a = sub(), b = sub(); const n = fresh('X'); decl(`interface ${n} { k: ${a.src}; 'j-j': ${b.src}; m(): void }`); const which = rng.pick(['k', 'j-j']); const r = which === 'k' ? a : b; return { ...r, src: `${n}["${which}"]`, ops: ['interfaceIndex', ...r.ops] }; }
+    case 'nonNullableNullFirst': {
+      const a = sub(), b = sub(); const u = union(a, b);
+      const n = rng.bool() ? null : (() => { const k = fresh('M'); decl(`type ${k} = null | undefined;`); return k; })();
+      return { src: `NonNullable<${n ?? 'null'} | ${a.src} | ${rng.bool() ? 'undefined | ' : ''}${b.src}>`, ctors: u.ctors.filter((c) => c !== null), inhabitants: u.inhabitants.filter((x) => x.js !== 'null'), ops: ['nonNullableNullFirst', ...a.ops, ...b.ops] };
+    }
+    case 'interfaceMethodIndex': { const a = sub(); const n = fresh('X'); decl(`interface ${n} { k: ${a.src}; load(): void; 'm-m'(x: number): string }`); const which = rng.pick(['load', 'm-m']); return { src: `${n}["${which}"]`, ctors: ['Function'], inhabitants: [{ js: '(() => {})', atom: 'method-index' }], ops: ['interfaceMethodIndex'] }; }
+    case 'typeLitMethodIndex': { const a = sub(); return { src: `{ k: ${a.src}; run(): void }["run"]`, ctors: ['Function'], inhabitants: [{ js: '(function () {})', atom: 'method-index' }], ops: ['typeLitMethodIndex'] }; }
     case 'nonNullable': { const a = sub(); return { src: `NonNullable<${a.src} | null>`, ctors: a.ctors.filter((c) => c !== null), inhabitants: a.inhabitants.filter((x) => x.js !== 'null'), ops: ['nonNullable', ...a.ops] }; }
     default: throw new Error(op);
   }
@@ -239,7 +270,7 @@ export function encodeEmits(rng, names, out) {
     if (r === 1) { const k = fresh('N'); decl(`type ${k} = ${ns.map(q).join(' | ')};`); return k; }
     const k1 = fresh('N'), k2 = fresh('N'); decl(`type ${k1} = ${q(ns[0])};`); decl(`type ${k2} = ${[k1, ...ns.slice(1).map(q)].join(' | ')};`); return k2;
   };
-  const form = rng.pick(['fnType', 'unionOfFnTypes', 'callSigLiteral', 'callSigInterface', 'extendsChain', 'propertySyntax', 'aliasOfFn', 'intersection', 'exportedInterface', 'mixedDuplicates', 'extendsAlias', 'extendsAliasChain', 'extendsPropertyAlias']);
+  const form = rng.pick(['fnType', 'unionOfFnTypes', 'callSigLiteral', 'callSigInterface', 'extendsChain', 'propertySyntax', 'aliasOfFn', 'intersection', 'exportedInterface', 'mixedDuplicates', 'extendsAlias', 'extendsAliasChain', 'extendsPropertyAlias', 'mergedCallSigInterface', 'mergedPropertyInterface']);
   out.ops.push(form);
   switch (form) {
     case 'fnType': return `(e: ${nameUnion(names)}, ...args: any[]) => void`;
@@ -253,6 +284,13 @@ export function encodeEmits(rng, names, out) {
       decl(`interface ${base} { (e: ${nameUnion(a)}): void }`); decl(`interface ${mid} extends ${base} {}`);
       decl(`interface ${top} extends ${mid} { ${b.map((x) => `(e: ${q(x)}): void`).join('; ')} }`);
       return top;
+    }
+    case 'mergedCallSigInterface': case 'mergedPropertyInterface': {
+      const k = Math.max(1, Math.floor(names.length / 2)); const a = names.slice(0, k), b = names.slice(k);
+      const n = fresh('E');
+      const mem = (x) => (form === 'mergedCallSigInterface' ? `(e: ${q(x)}, v?: string): void` : `${/^[A-Za-z_$][\w$]*$/.test(x) ? x : q(x)}: [v: string]`);
+      decl(`interface ${n} { ${a.map(mem).join('; ')} }`); decl(`interface ${n} { ${b.map(mem).join('; ')} }`);
+      return n;
     }
     case 'extendsAlias': {
       const k = Math.max(1, Math.floor(names.length / 2)); const a = names.slice(0, k), b = names.slice(k);
